@@ -62,6 +62,21 @@ def _inj_fixed_and_dependent(d, i, n, fam):
         d[i]["distribution"] = cls(**{"f_" + dep: zoo.MID[fam][dep]})
 
 
+def _inj_fixed_zero_and_dependent(d, i, n, fam):
+    """a location-like parameter fixed at exactly 0 (falsy) AND given a dependence function"""
+    cls, names, roles = zoo.FAMILIES[fam]
+    loc = [nm for nm, r in zip(names, roles) if r in ("loc", "mu", "vmu")]
+    if not loc:
+        raise LookupError("family has no location-like parameter")
+    nm = loc[0]
+    kw = {"f_" + k: zoo.MID[fam][k] for k in names if k not in zoo.DEPENDENT[fam] and k != nm}
+    kw["f_" + nm] = 0 if i % 2 else 0.0
+    d[i]["distribution"] = cls(**kw)
+    p = {k: v for k, v in d[i]["parameters"].items()}
+    p[nm] = DependenceFunction(lambda x, a=0.5: a + 0 * x)
+    d[i]["parameters"] = p
+
+
 def _inj_neither(d, i, n, fam):
     p = dict(d[i]["parameters"])
     p.pop(zoo.DEPENDENT[fam][0])
@@ -95,6 +110,7 @@ DESC_INJ = {
     "unknown_key": (lambda i, n: True, _inj_unknown_key),
     "unknown_parameter_name": (lambda i, n: i >= 1, _inj_unknown_param_name),
     "parameter_fixed_and_dependent": (lambda i, n: i >= 1, _inj_fixed_and_dependent),
+    "parameter_fixed_at_zero_and_dependent": (lambda i, n: i >= 1, _inj_fixed_zero_and_dependent),
     "parameter_neither_fixed_nor_dependent": (lambda i, n: i >= 1, _inj_neither),
     "first_variable_conditional": (lambda i, n: i == 0, _inj_first_conditional),
     "conditional_on_self": (lambda i, n: i >= 1, _inj_cond_self),
@@ -342,7 +358,7 @@ MISC = {
 
 
 def main(ctx):
-    ctx.rule = ("fault enumeration: 11 description injectors x every applicable position x n_dim 1..4 x every family as carrier "
+    ctx.rule = ("fault enumeration: 12 description injectors x every applicable position x n_dim 1..4 x every family as carrier "
                 "(singles); all ordered pairs of description injectors at all position pairs for n_dim <= 3 with three carriers; "
                 "6 fit-call injectors x positions x n_dim 1..3 x carriers whose control fit succeeds; 30 further malformations "
                 "(HDC limits/deltas, non-finite points, 3-D models for 2-D contours, non-models, slicer keywords/reference "
@@ -356,14 +372,15 @@ def main(ctx):
     for carrier in fams:
         for n_dim in (1, 2, 3, 4):
             cases.append({"kind": "desc", "stage": "model_constructor", "carrier": carrier, "n_dim": n_dim})
-    pair_carriers = fams[:3] if not ctx.quick else fams[:2]
+    pair_carriers = fams if not ctx.quick else fams[:3]
     for carrier in pair_carriers:
         for n_dim in (2, 3):
             singles = [(inj, pos) for inj, (app, _) in DESC_INJ.items() for pos in range(n_dim) if app(pos, n_dim)]
             # pairs whose two injections cancel each other into a VALID description are not faults
-            cancel = {"parameter_fixed_and_dependent", "parameter_neither_fixed_nor_dependent"}
+            cancel = {"parameter_fixed_and_dependent", "parameter_neither_fixed_nor_dependent",
+                      "parameter_fixed_at_zero_and_dependent"}
             combos = [[a[0], a[1], b[0], b[1]] for a, b in itertools.permutations(singles, 2)
-                      if not ({a[0], b[0]} == cancel and a[1] == b[1])]
+                      if not ({a[0], b[0]} <= cancel and a[0] != b[0] and a[1] == b[1])]
             for k in range(0, len(combos), 150):
                 cases.append({"kind": "desc", "stage": "model_constructor", "carrier": carrier, "n_dim": n_dim,
                               "combos": combos[k:k + 150]})
